@@ -19,7 +19,11 @@ import (
 
 // C13: query results are a pure function of the lists and the request.
 
-var c13Hosts = []string{"ads.com", "sub.ads.com", "tracker.io", "example.org", "site.com", "printer", "1.2.3.4", "::1", "bce.ca", "abc.cafe.de", gen.DeepHost}
+var c13BaseHosts = []string{"ads.com", "sub.ads.com", "tracker.io", "example.org", "site.com", "printer", "1.2.3.4", "::1", "bce.ca", "abc.cafe.de", gen.DeepHost}
+
+// c13Hosts is the host vocabulary of the current case: the base names plus,
+// in one case of three, a group of names whose 32-bit hashes collide.
+var c13Hosts = c13BaseHosts
 
 func c13List(c *core.Ctx) []string {
 	var lines []string
@@ -283,7 +287,22 @@ func c13Exec(e *c13Engines, o c13Op, opIdx int) (snap string, kept []*c13Kept, d
 }
 
 func c13Run(c *core.Ctx, idx int) {
+	c13Hosts = c13BaseHosts
+	if len(gen.HostGroups) > 0 && c.Rng.Intn(3) == 0 {
+		g := gen.HostGroups[c.Rng.Intn(len(gen.HostGroups))]
+		c13Hosts = append(append([]string(nil), c13BaseHosts...), g[:min(len(g), 3)]...)
+		c.Event("histories_with_hash_colliding_host_names", 1)
+	}
 	lines := c13List(c)
+	if len(c13Hosts) > len(c13BaseHosts) {
+		// Hosts lines for some of the colliding names, with different addresses.
+		for i, h := range c13Hosts[len(c13BaseHosts):] {
+			if i == 0 || c.Rng.Intn(2) == 0 {
+				lines = append(lines, []string{"0.0.0.0 ", "10.0.0.1 ", "::1 "}[i%3]+h)
+			}
+		}
+		lines = util.Shuffle(c.Rng, lines)
+	}
 	if c.Rng.Intn(2) == 0 {
 		// Longer than the 4 KiB read block, with rules straddling block
 		// boundaries (what is read depends on what was read before).
@@ -330,6 +349,9 @@ func c13Run(c *core.Ctx, idx int) {
 			}
 		}
 		pool = append(pool, c13Op{Kind: "dns", Req: q})
+	}
+	for _, h := range c13Hosts[len(c13BaseHosts):] {
+		pool = append(pool, c13Op{Kind: "dns", Req: &gen.Req{HostnameReq: true, Host: h, DNSType: 1}})
 	}
 	for i := 0; i < 8; i++ {
 		q := gen.RandomReq(c.Rng, 0)
@@ -477,6 +499,7 @@ func init() {
 		Assumptions: []string{
 			"snapshots cover the exported state of results and rules (texts, flags, list ids, shortcut, rewrite values, slice contents and order)",
 		},
+		Setup: func(*core.Env) { gen.Collisions() },
 		Cases: func(t core.Tier) int { return sizes[t] },
 		Run:   c13Run,
 	})
